@@ -53,6 +53,8 @@ pub(crate) fn teardown(unimock: &mut Unimock) -> Result<(), Vec<MockError>> {
         return Ok(());
     }
 
+    #[cfg(unimock_verif)]
+    crate::verif::yield_point(crate::verif::Site::StrongCount);
     let strong_count = Arc::strong_count(&unimock.shared_state);
 
     if strong_count > 1 {
